@@ -111,12 +111,14 @@ CHECKS['C02'] = dict(
         'makes progress; any sequence of packets of <= 16 fragments accepted while the receiver is at most 3 packets behind is handed to '
         'uncompress() exactly once each, complete, in the order accepted, after exactly n rounds per packet, ending synchronised; from any '
         'state reachable under N* with a packet in flight and the receiver at most 4 behind the packet is completed within n-j rounds '
-        '(both directions). (B) for every state of the client model, four consecutive select timeouts end the sending state and the select timeout is '
+        '(both directions). (B) the client select loop (ClientLoop.v): once more than a second has passed since the last chunk with a packet in flight, any wake-up '
+        'of the loop except a lone datagram runs the timeout branch, so a busy tun device cannot starve the retransmit timer (repaired defect D18); for every state of the client model, four consecutive select timeouts end the sending state and the select timeout is '
         'positive and bounded. NOT proved: bounded TIME for the composition of both select loops with the network, the server sweep / lazy hold, '
         'resynchronisation when 5..8 packets behind. Those are decided by correspondence of '
         'Client.v/Server.v/Tunnel.v with the real programs on random fault schedules in virtual time plus an implementation-level oracle: '
-        'clean-path exactly-once-in-order, after a fault prefix delivery resumes (at most 4 leading packets lost); and a loop-level timed oracle: the real '
-        'client_tunnel()/tunnel() select loops as coroutines over a virtual clock with fault windows and periodic tun offers.',
+        'clean-path exactly-once-in-order, after a fault prefix delivery resumes (at most 4 leading packets lost); a loop-level timed oracle: the real '
+        'client_tunnel()/tunnel() select loops as coroutines over a virtual clock with fault windows and periodic tun offers; and the select-loop model run '
+        'against the real client_tunnel() through a scripted select().',
    note='Trusts: abstraction of the concrete models to the abstract protocols (inspection + rule-tie lemmas of C01); virtual time (wrapped '
         'time/select) stands for real time; one client session; zlib as oracle; Coq kernel; translator; extraction; gcc.',
    technique='Coq proof (progress/exactly-once by induction over clean rounds; timer state machine lemmas) + whole-system differential correspondence and timed oracle on the real programs',
